@@ -90,27 +90,41 @@ def ofOpt {α : Type} (k : TrapK) : Option α → Res α
   | some a => .ok a
   | none => .trap k
 
-/-- numeric instructions, with the trap cause made explicit; agrees with `Wasm.step` (theorem `stepNum_eq_base`) -/
+def popI32 : List Val → Res (BitVec 32 × List Val)
+  | .i32 v :: st => .ok (v, st)
+  | _ => .stuck
+
+def popI64 : List Val → Res (BitVec 64 × List Val)
+  | .i64 v :: st => .ok (v, st)
+  | _ => .stuck
+
+def popAny : List Val → Res (Val × List Val)
+  | v :: st => .ok (v, st)
+  | [] => .stuck
+
+/-- numeric instructions, with the trap cause made explicit; agrees with `Wasm.step` (theorem `stepNum_eq_base`).
+Written as one `match` on the instruction with typed pops (no overlapping patterns), which keeps unfolding cheap in proofs. -/
 def stepNum (loc : List Val) (i : Wasm.Instr) (st : List Val) : Res (List Val) :=
-  match i, st with
-  | .const32 v, st => .ok (.i32 v :: st)
-  | .const64 v, st => .ok (.i64 v :: st)
-  | .localGet k, st => match loc[k]? with
+  match i with
+  | .const32 v => .ok (.i32 v :: st)
+  | .const64 v => .ok (.i64 v :: st)
+  | .localGet k => match loc[k]? with
     | some v => .ok (v :: st)
     | none => .stuck
-  | .bin .i32 k, .i32 y :: .i32 x :: st => (ofOpt (divTrap y) (binop k x y)).bind fun r => .ok (.i32 r :: st)
-  | .bin .i64 k, .i64 y :: .i64 x :: st => (ofOpt (divTrap y) (binop k x y)).bind fun r => .ok (.i64 r :: st)
-  | .rel .i32 k, .i32 y :: .i32 x :: st => .ok (.i32 (b2i (relop k x y)) :: st)
-  | .rel .i64 k, .i64 y :: .i64 x :: st => .ok (.i32 (b2i (relop k x y)) :: st)
-  | .eqz .i32, .i32 x :: st => .ok (.i32 (b2i (x == 0)) :: st)
-  | .eqz .i64, .i64 x :: st => .ok (.i32 (b2i (x == 0)) :: st)
-  | .un .i32 k, .i32 x :: st => .ok (.i32 (unop k x) :: st)
-  | .un .i64 k, .i64 x :: st => .ok (.i64 (unop k x) :: st)
-  | .wrap_i64, .i64 x :: st => .ok (.i32 (x.setWidth 32) :: st)
-  | .extend_i32_s, .i32 x :: st => .ok (.i64 (x.signExtend 64) :: st)
-  | .extend_i32_u, .i32 x :: st => .ok (.i64 (x.setWidth 64) :: st)
-  | .drop, _ :: st => .ok st
-  | _, _ => .stuck
+  | .bin .i32 k => (popI32 st).bind fun (y, st1) => (popI32 st1).bind fun (x, st2) =>
+      (ofOpt (divTrap y) (binop k x y)).bind fun r => .ok (.i32 r :: st2)
+  | .bin .i64 k => (popI64 st).bind fun (y, st1) => (popI64 st1).bind fun (x, st2) =>
+      (ofOpt (divTrap y) (binop k x y)).bind fun r => .ok (.i64 r :: st2)
+  | .rel .i32 k => (popI32 st).bind fun (y, st1) => (popI32 st1).bind fun (x, st2) => .ok (.i32 (b2i (relop k x y)) :: st2)
+  | .rel .i64 k => (popI64 st).bind fun (y, st1) => (popI64 st1).bind fun (x, st2) => .ok (.i32 (b2i (relop k x y)) :: st2)
+  | .eqz .i32 => (popI32 st).bind fun (x, st1) => .ok (.i32 (b2i (x == 0)) :: st1)
+  | .eqz .i64 => (popI64 st).bind fun (x, st1) => .ok (.i32 (b2i (x == 0)) :: st1)
+  | .un .i32 k => (popI32 st).bind fun (x, st1) => .ok (.i32 (unop k x) :: st1)
+  | .un .i64 k => (popI64 st).bind fun (x, st1) => .ok (.i64 (unop k x) :: st1)
+  | .wrap_i64 => (popI64 st).bind fun (x, st1) => .ok (.i32 (x.setWidth 32) :: st1)
+  | .extend_i32_s => (popI32 st).bind fun (x, st1) => .ok (.i64 (x.signExtend 64) :: st1)
+  | .extend_i32_u => (popI32 st).bind fun (x, st1) => .ok (.i64 (x.setWidth 64) :: st1)
+  | .drop => (popAny st).bind fun (_, st1) => .ok st1
 
 def valNat : Val → Nat
   | .i32 v => v.toNat
@@ -132,30 +146,30 @@ def widthOk (t : Ty) (n : Nat) : Bool :=
   | .i64 => n = 1 || n = 2 || n = 4 || n = 8
 
 def step (loc : List Val) (i : Instr) (s : State) : Res State :=
-  match i, s with
-  | .num i, (st, m) => (stepNum loc i st).bind fun st' => .ok (st', m)
-  | .select, (.i32 c :: v2 :: v1 :: st, m) =>
-      if valTy v1 = valTy v2 then .ok ((if c = 0 then v2 else v1) :: st, m) else .stuck
-  | .load t n sx off, (.i32 a :: st, m) =>
+  let (st, m) := s
+  match i with
+  | .num i => (stepNum loc i st).bind fun st' => .ok (st', m)
+  | .select => (popI32 st).bind fun (c, st1) => (popAny st1).bind fun (v2, st2) => (popAny st2).bind fun (v1, st3) =>
+      if valTy v1 = valTy v2 then .ok ((if c = 0 then v2 else v1) :: st3, m) else .stuck
+  | .load t n sx off => (popI32 st).bind fun (a, st1) =>
       if !widthOk t n then .stuck
       else if a.toNat + off + n > m.size then .trap .oob
-      else .ok (mkVal t sx n (readLE m.bytes (a.toNat + off) n) :: st, m)
-  | .store t n off, (v :: .i32 a :: st, m) =>
+      else .ok (mkVal t sx n (readLE m.bytes (a.toNat + off) n) :: st1, m)
+  | .store t n off => (popAny st).bind fun (v, st1) => (popI32 st1).bind fun (a, st2) =>
       if !widthOk t n || valTy v != t then .stuck
       else if a.toNat + off + n > m.size then .trap .oob
-      else .ok (st, { m with bytes := writeLE m.bytes (a.toNat + off) n (valNat v) })
-  | .memSize, (st, m) => .ok (.i32 (BitVec.ofNat 32 m.pages) :: st, m)
-  | .memGrow, (.i32 d :: st, m) =>
+      else .ok (st2, { m with bytes := writeLE m.bytes (a.toNat + off) n (valNat v) })
+  | .memSize => .ok (.i32 (BitVec.ofNat 32 m.pages) :: st, m)
+  | .memGrow => (popI32 st).bind fun (d, st1) =>
       if m.pages + d.toNat ≤ m.maxPages then
-        .ok (.i32 (BitVec.ofNat 32 m.pages) :: st, { m with bytes := m.bytes ++ Array.replicate (d.toNat * pageSize) 0 })
-      else .ok (.i32 (-1) :: st, m)
-  | .memFill, (.i32 n :: .i32 v :: .i32 d :: st, m) =>
+        .ok (.i32 (BitVec.ofNat 32 m.pages) :: st1, { m with bytes := m.bytes ++ Array.replicate (d.toNat * pageSize) 0 })
+      else .ok (.i32 (-1) :: st1, m)
+  | .memFill => (popI32 st).bind fun (n, st1) => (popI32 st1).bind fun (v, st2) => (popI32 st2).bind fun (d, st3) =>
       if d.toNat + n.toNat > m.size then .trap .oob
-      else .ok (st, { m with bytes := fillBytes m.bytes d.toNat (v.setWidth 8) n.toNat })
-  | .memCopy, (.i32 n :: .i32 s :: .i32 d :: st, m) =>
+      else .ok (st3, { m with bytes := fillBytes m.bytes d.toNat (v.setWidth 8) n.toNat })
+  | .memCopy => (popI32 st).bind fun (n, st1) => (popI32 st1).bind fun (s, st2) => (popI32 st2).bind fun (d, st3) =>
       if s.toNat + n.toNat > m.size || d.toNat + n.toNat > m.size then .trap .oob
-      else .ok (st, { m with bytes := copyBytes m.bytes d.toNat s.toNat n.toNat })
-  | _, _ => .stuck
+      else .ok (st3, { m with bytes := copyBytes m.bytes d.toNat s.toNat n.toNat })
 
 def exec (loc : List Val) : List Instr → State → Res State
   | [], s => .ok s
@@ -163,36 +177,39 @@ def exec (loc : List Val) : List Instr → State → Res State
 
 /-! ## typing of straight-line code (validation, spec §3.3) -/
 
+/-- pop one operand of type `t` from the type stack -/
+def tpop (t : Ty) : List Ty → Option (List Ty)
+  | t' :: ts => if t' = t then some ts else none
+  | [] => none
+
 def tyNum (lt : List Ty) (i : Wasm.Instr) (ts : List Ty) : Option (List Ty) :=
-  match i, ts with
-  | .const32 _, ts => some (.i32 :: ts)
-  | .const64 _, ts => some (.i64 :: ts)
-  | .localGet k, ts => (lt[k]?).map (· :: ts)
-  | .bin .i32 _, .i32 :: .i32 :: ts => some (.i32 :: ts)
-  | .bin .i64 _, .i64 :: .i64 :: ts => some (.i64 :: ts)
-  | .rel .i32 _, .i32 :: .i32 :: ts => some (.i32 :: ts)
-  | .rel .i64 _, .i64 :: .i64 :: ts => some (.i32 :: ts)
-  | .eqz .i32, .i32 :: ts => some (.i32 :: ts)
-  | .eqz .i64, .i64 :: ts => some (.i32 :: ts)
-  | .un .i32 _, .i32 :: ts => some (.i32 :: ts)
-  | .un .i64 _, .i64 :: ts => some (.i64 :: ts)
-  | .wrap_i64, .i64 :: ts => some (.i32 :: ts)
-  | .extend_i32_s, .i32 :: ts => some (.i64 :: ts)
-  | .extend_i32_u, .i32 :: ts => some (.i64 :: ts)
-  | .drop, _ :: ts => some ts
-  | _, _ => none
+  match i with
+  | .const32 _ => some (.i32 :: ts)
+  | .const64 _ => some (.i64 :: ts)
+  | .localGet k => (lt[k]?).map (· :: ts)
+  | .bin t _ => (tpop t ts).bind fun r => (tpop t r).map (t :: ·)
+  | .rel t _ => (tpop t ts).bind fun r => (tpop t r).map (.i32 :: ·)
+  | .eqz t => (tpop t ts).map (.i32 :: ·)
+  | .un t _ => (tpop t ts).map (t :: ·)
+  | .wrap_i64 => (tpop .i64 ts).map (.i32 :: ·)
+  | .extend_i32_s => (tpop .i32 ts).map (.i64 :: ·)
+  | .extend_i32_u => (tpop .i32 ts).map (.i64 :: ·)
+  | .drop => match ts with
+    | _ :: r => some r
+    | [] => none
 
 def tyStep (lt : List Ty) (i : Instr) (ts : List Ty) : Option (List Ty) :=
-  match i, ts with
-  | .num i, ts => tyNum lt i ts
-  | .select, .i32 :: t2 :: t1 :: ts => if t1 = t2 then some (t1 :: ts) else none
-  | .load t n _ _, .i32 :: ts => if widthOk t n then some (t :: ts) else none
-  | .store t n _, t' :: .i32 :: ts => if widthOk t n && t' = t then some ts else none
-  | .memSize, ts => some (.i32 :: ts)
-  | .memGrow, .i32 :: ts => some (.i32 :: ts)
-  | .memFill, .i32 :: .i32 :: .i32 :: ts => some ts
-  | .memCopy, .i32 :: .i32 :: .i32 :: ts => some ts
-  | _, _ => none
+  match i with
+  | .num i => tyNum lt i ts
+  | .select => (tpop .i32 ts).bind fun r => match r with
+    | t2 :: t1 :: r' => if t1 = t2 then some (t1 :: r') else none
+    | _ => none
+  | .load t n _ _ => if widthOk t n then (tpop .i32 ts).map (t :: ·) else none
+  | .store t n _ => if widthOk t n then (tpop t ts).bind (tpop .i32) else none
+  | .memSize => some (.i32 :: ts)
+  | .memGrow => (tpop .i32 ts).map (.i32 :: ·)
+  | .memFill => (tpop .i32 ts).bind fun r => (tpop .i32 r).bind (tpop .i32)
+  | .memCopy => (tpop .i32 ts).bind fun r => (tpop .i32 r).bind (tpop .i32)
 
 def tyExec (lt : List Ty) : List Instr → List Ty → Option (List Ty)
   | [], ts => some ts
